@@ -17,12 +17,12 @@ RULE = ("Hypothesis draws a volume (40..64 per side) with 2-6 planted particles 
         "template matcher), spaced >= 6 sigma (or 1.6 template boxes) apart and away from the faces, a pixel scale, an "
         "image dtype (float32/float64/int16/uint8) and a dask chunking (incl. chunks smaller than the overlap depth) "
         "with the particles placed relative to chunk borders (interior / on a border / on a corner shared by 8 "
-        "chunks); for the blob pickers one image axis in three of seven cases is a thin slab shorter than the overlap depth with the particles on its mid-plane. Oracle: picks scoring at least half the median score at the planted sites must be in bijection with "
+        "chunks); in a third of the LoG / template-matcher cases two particles are diagonal neighbours (farther apart than the exclusion distance, but within its ceiling along every axis: point-like particles (3,3,3) px apart for sigma 2.2/2.5, compact 9-voxel template particles 5-6 px apart per axis with min_distance = 6 px); for the blob pickers one image axis in three of seven cases is a thin slab shorter than the overlap depth with the particles on its mid-plane. Oracle: picks scoring at least half the median score at the planted sites must be in bijection with "
         "the particles (within 1 px, none missed, no duplicates within the exclusion distance, none elsewhere), the "
         "template matcher must report the planted rotation, and the strong-pick set must be the same for numpy input "
         "and for the chunked input. Non-trivial = more than one chunk along an axis with a particle within the overlap "
         "depth of a chunk border, or an image axis shorter than the overlap depth.")
-TOLERANCES = {"position": "1 px * scale", "numpy vs chunked positions": "0.5 px * scale", "scores numpy vs chunked": "5e-2 relative"}
+TOLERANCES = {"position": "1 px * scale (0.3 px for particles centred on a voxel of the response)", "numpy vs chunked positions": "0.5 px * scale", "scores numpy vs chunked": "5e-2 relative"}
 ASSUMPTIONS = ["strong pick = score >= 0.5 (LoG/DoG) or 0.75 (template matcher) * median score of the picks nearest to the planted sites (weak side-lobe maxima are ignored)"]
 
 
@@ -30,9 +30,9 @@ def build_image(d):
     vol = tuple(d["vol"])
     img = np.zeros(vol, dtype=np.float64)
     if d["picker"] in ("LoG", "DoG"):
-        s = d["sigma_px"]
-        blob = [{"u": [0.0, 0.0, 0.0], "s": s, "a": 1.0}]
+        s = d.get("psigma") or d["sigma_px"]
         for p in d["particles"]:
+            blob = [{"u": [0.0, 0.0, 0.0], "s": s, "a": float(p.get("amp", 1.0))}]
             planted.render_at(blob, vol, np.asarray(p["pos"], dtype=np.float64), Rotation.identity(), out=img)
     else:
         rots = [Rotation.identity()] + [Rotation.from_rotvec(r) for r in d["rots"]]
@@ -118,9 +118,10 @@ def judge(d):
         used = set()
         for i, t in enumerate(truth):
             dist = np.sqrt(((pos - t) ** 2).sum(1)) if len(pos) else np.zeros(0)
-            hits = [j for j in range(len(pos)) if dist[j] <= 1.0]
+            tol_px = 0.3 if d["particles"][i].get("grid") else 1.0
+            hits = [j for j in range(len(pos)) if dist[j] <= tol_px]
             if not hits:
-                out.append(viol(f"C20/missed:{name}", f"{tag} input={name}: particle {i} at {t.tolist()} px has no strong pick within 1 px "
+                out.append(viol(f"C20/missed:{name}", f"{tag} input={name}: particle {i} at {t.tolist()} px has no strong pick within {tol_px} px "
                                 f"(nearest at {dist.min() if len(dist) else float('nan'):.2f} px)"))
                 continue
             close = [j for j in range(len(pos)) if dist[j] <= max(excl, 1.0) + 1.0]
@@ -160,7 +161,18 @@ def judge(d):
 def cases(draw, pickers=("LoG", "DoG", "ZNCC")):
     picker = draw(st.sampled_from(list(pickers)))
     scale = draw(st.sampled_from([1.0, 0.5, 2.0, 1.37]))
-    if picker == "ZNCC":
+    # close-pair class: two particles that are diagonal neighbours - farther apart than the exclusion distance r but within
+    # ceil(r) along every axis (only a ball-shaped exclusion zone keeps both)
+    pairmode = picker in ("LoG", "ZNCC") and draw(st.integers(0, 4)) >= 3
+    psigma = None
+    if picker == "ZNCC" and pairmode:
+        # compact particle in a 9-voxel template, min_distance 6 px, neighbours (5..6, 5..6, 5..6) px apart (>= 8.7 px)
+        tshape, ts = [9, 9, 9], 9
+        blobs = draw(planted.blob_offsets(3.5, nblob=(3, 3), sigma=(0.7, 0.8), rmin=1.0))
+        rots = []  # blobs at radius ~1.2 px cannot discriminate rotations (seen: 86 deg confusion at int16 quantisation)
+        depth, spacing, margin, sigma_px, min_dist = 5, 15, 7, 0.8, 6.0
+        pair_off = [draw(st.sampled_from([5, 6])) for _ in range(3)]
+    elif picker == "ZNCC":
         if draw(st.booleans()):
             ts = draw(st.sampled_from([13, 14, 15]))
             tshape = [ts, ts, ts]
@@ -177,6 +189,9 @@ def cases(draw, pickers=("LoG", "DoG", "ZNCC")):
         min_dist = float(draw(st.sampled_from([3.0, 4.0])))
     else:
         sigma_px = draw(st.sampled_from([2.0, 2.5, 3.0]))
+        if pairmode:
+            # point-like particles 3 voxels apart on every axis (5.2 px = 2.1-2.4 sigma: resolved by the LoG response)
+            sigma_px, psigma, pair_off = draw(st.sampled_from([2.2, 2.5])), 0.8, [3, 3, 3]
         depth = int(math.ceil(5 * sigma_px)) + 1
         spacing = int(math.ceil(7 * sigma_px))
         margin = int(math.ceil(4 * sigma_px)) + 2
@@ -185,7 +200,7 @@ def cases(draw, pickers=("LoG", "DoG", "ZNCC")):
     vol, chunks, borders = [], [], []
     # thin-slab class (blob pickers): one image axis is shorter than the overlap depth; particles sit on its mid-plane, so the
     # response stays symmetric about their centre under the 'nearest' boundary
-    thin_axis = draw(st.sampled_from([None, None, None, None, 0, 1, 2])) if picker != "ZNCC" else None
+    thin_axis = draw(st.sampled_from([None, None, None, None, 0, 1, 2])) if (picker != "ZNCC" and not pairmode) else None
     for a in range(3):
         if a == thin_axis:
             size = 2 * draw(st.integers(int(math.ceil(sigma_px)), (depth - 2) // 2)) + 1
@@ -220,14 +235,31 @@ def cases(draw, pickers=("LoG", "DoG", "ZNCC")):
             parts.append({"pos": pos, "k": draw(st.integers(0, 3)), "cls": cls})
     if len(parts) < 1:
         parts.append({"pos": [vol[0] / 2, vol[1] / 2, vol[2] / 2], "k": 0, "cls": "interior"})
+    # on-grid class: the particle centre coincides with a voxel of the response (integer position; half-integer along even
+    # template axes), so the pick must be exact, not just within a voxel
+    if draw(st.booleans()):
+        for q in parts:
+            h = [0.0, 0.0, 0.0] if tshape is None else [((t - 1) / 2) % 1 for t in tshape]
+            q["pos"] = [float(round(v - h[a]) + h[a]) for a, v in enumerate(q["pos"])]
+            q["grid"] = True
+    if pairmode and thin_axis is None:
+        p0 = parts[0]
+        if picker == "LoG":
+            p0["pos"] = [float(round(v)) for v in p0["pos"]]
+        p1 = [v + (pair_off[a] if v < (vol[a] - 1) / 2 else -pair_off[a]) for a, v in enumerate(p0["pos"])]
+        inside = all(margin <= p1[a] <= vol[a] - 1 - margin for a in range(3))
+        if inside and all(math.dist(p1, q["pos"]) >= 0.6 * spacing for q in parts[1:]):
+            parts.insert(1, {"pos": p1, "k": p0["k"], "cls": "pair", "amp": 0.8, "grid": bool(p0.get("grid")) or picker == "LoG"})
+            p0["cls"] = "pair"
     return {"picker": picker, "scale": scale, "vol": vol, "chunks": chunks, "particles": parts, "sigma_px": sigma_px,
-            "tshape": tshape, "blobs": blobs, "rots": rots, "min_dist_px": min_dist, "depth": depth,
+            "tshape": tshape, "blobs": blobs, "rots": rots, "min_dist_px": min_dist, "depth": depth, "psigma": psigma,
             "dtype": draw(st.sampled_from(["float32", "float32", "float64", "int16", "uint8"])),
-            "noise": draw(st.sampled_from([0.0, 0.01, 0.03])), "seed": draw(gen.seeds)}
+            # (normalised template-matching scores of two identical noise-free particles tie exactly: keep some noise there)
+            "noise": draw(st.sampled_from([0.01, 0.03] if (pairmode and picker == "ZNCC") else [0.0, 0.01, 0.03])), "seed": draw(gen.seeds)}
 
 
 def nontrivial(d):
-    if any(v < d["depth"] for v in d["vol"]):
+    if any(v < d["depth"] for v in d["vol"]) or any(p["cls"] == "pair" for p in d["particles"]):
         return True
     multi = any(len(c) > 1 for c in d["chunks"])
     if not multi:
@@ -244,6 +276,8 @@ def labels(d):
     labs = {f"picker:{d['picker']}", f"dtype:{d['dtype']}", "scale:1" if d["scale"] == 1.0 else "scale:other",
             f"nchunks:{int(np.prod([len(c) for c in d['chunks']]))}"}
     labs |= {f"placement:{p['cls']}" for p in d["particles"]}
+    if any(p.get("grid") for p in d["particles"]):
+        labs.add("on-grid")
     if any(min(c) < d["depth"] for c in d["chunks"]):
         labs.add("chunk<depth")
     if any(v < d["depth"] for v in d["vol"]):
